@@ -16,6 +16,7 @@ type timerCore struct {
 func (tm *timerCore) fire(s *Sched) {
 	if len(tm.c.core.buf) < tm.c.core.cap {
 		tm.c.core.buf = append(tm.c.core.buf, Epoch.Add(time.Duration(s.now)))
+		tm.c.core.bufClock = append(tm.c.core.bufClock, nil)
 	}
 	if tm.period > 0 {
 		tm.deadline += tm.period
